@@ -383,6 +383,7 @@ Definition delete_topic (p : part) (parent : handle) (name : Z) : part * ret :=
        | Some t =>
            if existsb (uses_topic (t_name t)) (pa_pubs p) then (p, RErr E_PRECONDITION)
            else if existsb (uses_topic (t_name t)) (pa_subs p) then (p, RErr E_PRECONDITION)
+           else if existsb (fun c => c_rel c =? name) (pa_cfts p) then (p, RErr E_PRECONDITION)   (* since 7cc766b *)
            else (set_topics p (filter (fun x => negb (is_topic name x)) (pa_topics p)), RUnit)
        end.
 
@@ -394,8 +395,15 @@ Definition create_cft (pr : profile) (p : part) (name related : Z) : part * ret 
        | None => (p, RErr E_OUT_OF_RESOURCES)
        | Some c' => let p1 := set_tcounter p c' in (set_cfts p1 (pa_cfts p1 ++ [mkCft name related]), RUnit)
        end.
-(* delete_content_filtered_topic (participant_methods.rs:408): Ok(()) and nothing else *)
-Definition delete_cft (p : part) (name : Z) : part * ret := (p, RUnit).
+(* delete_content_filtered_topic (participant_methods.rs, since 7cc766b): AlreadyDeleted if unknown,
+   PreconditionNotMet while a data reader was created on it, else the first entry of that name is removed *)
+Definition delete_cft (p : part) (name : Z) : part * ret :=
+  match find_first (is_cft name) (pa_cfts p) with
+  | None => (p, RErr E_DELETED)
+  | Some _ =>
+      if existsb (uses_topic name) (pa_subs p) then (p, RErr E_PRECONDITION)
+      else (set_cfts p (rem_first (is_cft name) (pa_cfts p)), RUnit)
+  end.
 
 (* topic lookup of create_data_reader (subscriber_methods.rs:43) / create_data_writer (publisher_methods.rs:38) *)
 Definition lookup_topic (sd : side) (p : part) (name : Z) : option topic :=
@@ -467,9 +475,10 @@ Definition delete_endpoint (sd : side) (p : part) (gh eh : handle) : part * ret 
       end
   end.
 
-(* delete_participant_contained_entities (participant_methods.rs:508): the content filtered topics stay *)
+(* delete_participant_contained_entities (participant_methods.rs:508): since 7cc766b the content filtered topics go
+   as well *)
 Definition delete_contained (p : part) : part * ret :=
-  (set_topics (set_groups SSub (set_groups SPub p []) []) [], RUnit).
+  (set_topics (set_cfts (set_groups SSub (set_groups SPub p []) []) []) [], RUnit).
 
 (* DomainParticipantEntity::is_empty *)
 Definition part_is_empty (p : part) : bool :=
